@@ -2,6 +2,7 @@
 
 import functools as ft
 from typing import (
+    Any,
     Dict,
     List,
     Mapping,
@@ -13,8 +14,7 @@ from typing import (
     cast,
 )
 
-from .._utils import lazy
-from ..exc import ExtensionError, SDLError
+from ..exc import CoercionError, ExtensionError, InvalidValue, SDLError
 from ..lang import ast as _ast
 from ..schema import (
     SPECIFIED_DIRECTIVES,
@@ -291,6 +291,16 @@ class ASTTypeBuilder:
         )
 
     def _build_enum_type(self, type_def: _ast.EnumTypeDefinition) -> EnumType:
+        value_names = set()  # type: Set[str]
+        for value in type_def.values:
+            if value.name.value in value_names:
+                raise SDLError(
+                    'Duplicate enum value "%s" in enum "%s"'
+                    % (value.name.value, type_def.name.value),
+                    [value],
+                )
+            value_names.add(value.name.value)
+
         return EnumType(
             name=type_def.name.value,
             description=_desc(type_def),
@@ -299,6 +309,10 @@ class ASTTypeBuilder:
         )
 
     def _build_enum_value(self, node: _ast.EnumValueDefinition) -> EnumValue:
+        if node.name.value in ("true", "false", "null"):
+            raise SDLError(
+                'Invalid name "%s" for enum value' % node.name.value, [node]
+            )
         return EnumValue(
             name=node.name.value,
             description=_desc(node),
@@ -345,21 +359,29 @@ class ASTTypeBuilder:
     ) -> List[InputField]:
         return [self._build_input_field(node) for node in nodes]
 
+    def _default_value(self, node: _ast.InputValueDefinition) -> Any:
+        try:
+            return value_from_ast(
+                cast(_ast.Value, node.default_value),
+                self.build_type(node.type),
+            )
+        except (InvalidValue, TypeError) as err:
+            raise SDLError(
+                'Invalid default value for "%s": %s' % (node.name.value, err),
+                [node],
+            )
+
     def _build_argument(self, node: _ast.InputValueDefinition) -> Argument:
         type_ = self.build_type(node.type)
         kwargs = dict(description=_desc(node), node=node)
         if node.default_value is not None:
-            kwargs["default_value"] = value_from_ast(
-                node.default_value, lazy(type_)
-            )
+            kwargs["default_value"] = self._default_value(node)
         return Argument(node.name.value, type_, **kwargs)  # type: ignore
 
     def _build_input_field(self, node: _ast.InputValueDefinition) -> InputField:
         kwargs = dict(description=_desc(node), node=node)
         if node.default_value is not None:
-            kwargs["default_value"] = value_from_ast(
-                node.default_value, self.build_type(node.type)
-            )
+            kwargs["default_value"] = self._default_value(node)
         return InputField(
             node.name.value,
             # has to be lazy to support cyclic definition
@@ -576,7 +598,10 @@ class ASTTypeBuilder:
 def _deprecation_reason(
     node: Union[_ast.FieldDefinition, _ast.EnumValueDefinition]
 ) -> Optional[str]:
-    args = directive_arguments(DeprecatedDirective, node, {})
+    try:
+        args = directive_arguments(DeprecatedDirective, node, {})
+    except CoercionError as err:
+        raise SDLError(str(err), [node])
     return args.get("reason", None) if args else None
 
 
